@@ -279,6 +279,50 @@ def _run_types(res):
                   "solutions() lists something other than the active binaries", yielded=[list(y[2]) for y in ys],
                   bounds=[lo, hi], value=val)
 
+    # integers whose bounds are not [0, 1] are not binaries, whatever the sign of a bound: they read back as the
+    # integer, are never listed in a solution, and moving them alone never makes a "new" solution
+    for ilo, ihi, fix in ((-1, 1, 1), (-1, 1, -1), (-1, 1, 0), (-3, 1, 1), (-3, 1, -2), (0, 2, 1), (-1, 0, -1),
+                          (1, 1, 1), (0, 1, 1), (0, 1, 0)):
+        m = lpi.model("AldyTypesInt", "any")
+        x = m.addVar(vtype="B", name="X")
+        y = m.addVar(vtype="B", name="Y")
+        z = m.addVar(vtype="I", lb=ilo, ub=ihi, name="Z")
+        m.addConstr(x + y >= 1, name="ONE")
+        m.addConstr(z >= fix, name="FIXZ")
+        m.addConstr(z <= fix, name="FIXZ")
+        m.setObjective(1 * x + 1 * y + 0.1 * z)
+        m.solve()
+        vz, isz = m.getValue(z), m.is_binary(z)
+        want_bin = (ilo, ihi) == (0, 1)
+        ys = list(m.solutions(0))
+        if want_bin:
+            okv = vz is (fix > 0)
+            want = {("X", "Z"), ("Y", "Z")} if fix else {("X",), ("Y",)}
+        else:
+            okv = vz == fix and not isinstance(vz, bool)
+            want = {("X",), ("Y",)}
+        res.check("typed_readback", okv, "typed read-back of an integer variable is wrong",
+                  bounds=[ilo, ihi], value=fix, got=repr(vz))
+        res.check("binary_detection", isz == want_bin, "binary detection misclassifies an integer variable",
+                  bounds=[ilo, ihi], value=fix, got=isz)
+        got = [tuple(sorted(t[2])) for t in ys]
+        res.check("binary_detection", sorted(got) == sorted(want),
+                  "solutions() of a model with an integer variable are not exactly the optimal binary assignments",
+                  yielded=[list(g) for g in got], bounds=[ilo, ihi], value=fix)
+
+    # free integer in [-1, 1] with a gap: the exclusion cut must not be satisfiable by moving the integer alone
+    m = lpi.model("AldyTypesGap", "any")
+    x = m.addVar(vtype="B", name="X")
+    y = m.addVar(vtype="B", name="Y")
+    z = m.addVar(vtype="I", lb=-1, ub=1, name="Z")
+    m.addConstr(x + y >= 1, name="ONE")
+    m.setObjective(1 * x + 1 * y - 0.1 * z)
+    ys = list(m.solutions(0.2))
+    got = [tuple(sorted(t[2])) for t in ys]
+    res.check("binary_detection", sorted(got) == [("X",), ("Y",)] and all(abs(t[1] - 0.9) < 1e-6 for t in ys),
+              "enumeration with a free integer variable: a binary assignment is repeated or the integer is listed",
+              yielded=[[t[1], list(t[2])] for t in ys])
+
 
 def _audit_all(res, label, max_models=None):
     fps = []
